@@ -37,4 +37,19 @@ EmitF == (fcall.op = "none" /\ got = NoGot) =>
                                   g2 == GotAfter(file, cs[i])
                               IN <<cs[i].op, cs[i].mode, Code(cs[i].px), f2.mode, Code(f2.px),
                                    g2.kind, g2.mode, Code(g2.px), g2.sz>>]])>>)
+
+\* per state of the two-position machine: every enabled call and the state it leads to
+\* a state is <<fmt, pmode, file 1, file 2, buffer 1, buffer 2>>, a file -1 (absent) or its tile code, a buffer <<pos, code>>
+FileCode(f) == IF f = Absent THEN 0 - 1 ELSE Code(f.px)
+PState(pf, ph) == <<fmt, pmode, FileCode(pf[1]), FileCode(pf[2]), <<ph[1].pos, Code(ph[1].px)>>, <<ph[2].pos, Code(ph[2].px)>>>>
+EmitP ==
+    LET S == PairSrcSeq
+        opens == {kp \in Handles \X Positions : phand[kp[1]] = Closed}
+        live == {k \in Handles : phand[k] # Closed}
+    IN PrintT(<<"P", ToJson([s |-> PState(pfile, phand),
+                            src |-> [i \in 1..Len(S) |-> Code(S[i])],
+                            open |-> SetToSeq({<<kp[1], kp[2], PState(pfile, OpenTo(kp[1], kp[2]))>> : kp \in opens}),
+                            mut |-> SetToSeq({<<x[1], x[2], x[3], PState(pfile, MutTo(x[1], x[2], S[x[3]]))>> :
+                                              x \in live \X {"fill", "update"} \X (1..Len(S))}),
+                            close |-> SetToSeq({<<k, PState(CloseFiles(k), CloseHands(k))>> : k \in live})])>>)
 =============================================================================
